@@ -82,6 +82,7 @@ func zzProposalOf(w *zzWorld, id string) (*Proposal, bool) {
 
 // ZZH_C15_vote_step: one Vote on a proposal in an arbitrary consistent state (2..3 electors,
 // default strategy a > 0.5*t evaluated by the real MakeStrategyDecision).
+// zz:also C01
 func ZZH_C15_vote_step() {
 	gw := zzNewGovWorld()
 	w := gw.w
@@ -111,6 +112,7 @@ func ZZH_C15_vote_step() {
 	bi := zz.Choice("ballotCast", 3)
 	snap := w.snapshot()
 	res := gw.g.Vote(p.Id, ballots[bi], "because")
+	zz.NoAddress("C01.no-address-in-result:vote", res.Result) // the result (also of a refusal) ends up in the receipt
 	post, ok := zzProposalOf(w, p.Id)
 	zz.Assert("C15.vote.proposal-kept", ok)
 	eligible := vi < n && votes[vi%n] == 0 && p.Status == PROPOSED && gw.adminOK && bi < 2
